@@ -22,6 +22,12 @@ theorem only_snapshot_elements_unlocked :
 theorem maps_always_locked :
     (notifier.filter (fun a => a.via == .mapEntry)).all (fun a => a.locked) = true := by decide
 
+/-- premise of the readers-writer theorems of `Props/C17.lean` (`RW.ReadOnly`, `C17.concurrent_registry_linearizable_rw`):
+    whatever the code does to the registry while holding only the READ half of the lock is a read — so brackets that
+    overlap in time never write -/
+theorem shared_brackets_read_only :
+    (notifier.filter (fun a => a.must == .shared || a.may == .shared)).all (fun a => a.kind == .read) = true := by decide
+
 /-- the user's targets (`HandleNotification`, `BatchMode`) are called with the lock free on EVERY path: a target may call
     back into the notifier (Register, Unregister, Notify, StartBatch …) without deadlock -/
 theorem targets_called_unlocked : callbacksUnlocked notifierEvents = true := by decide
